@@ -186,6 +186,6 @@ def run(ctx):
     # Guard(..) wrapping: Iter::next maps the inner guard, never synthesises one
     # ---- R-C01.3 one fresh seqno per write (same obligations as C06.1, counted here once per entry)
     for fn in R.write_entries(ctx):
-        nb = R.call_blocks(fn, (R.SEQNO_NEXT,))
+        nb = R.seqno_draw_blocks(ctx, fn)
         ok = len(nb) == 1 and not A.in_cycle(fn, nb[0])
         ctx.ob("R-C01.3", fn, "one-fresh-seqno", ok, "one seqno.next() per write operation" if ok else "%d seqno draws" % len(nb), nontrivial=False)
